@@ -72,3 +72,14 @@ Definition wf_op (n : nat) (o : lop RN) : Prop :=
   | OpUpd _ pw nw pd nd => Forall (is_mat n) pw /\ Forall (is_mat n) nw /\ Forall (is_mat n) pd /\ Forall (is_mat n) nd
   | _ => True
   end.
+
+(* a matrix agrees with an entry function on the n x n block *)
+Definition agree (n : nat) (m : list (list R)) (f : nat -> nat -> R) : Prop :=
+  forall i j, (i < n)%nat -> (j < n)%nat -> mat_at m i j = f i j.
+
+(* the invariant: no self-weight, no self-delay *)
+Definition lat_inv (s : lat RN) : Prop :=
+  diag_zero (l_w RN s) /\ match l_d RN s with Some d => diag_zero d | None => True end.
+
+(* H = W = 1 with a 3x3 kernel, no padding *)
+Definition g_neg : geom := mkG 1 1 1 1 3 3 1 1 0 0 1 1.
